@@ -166,3 +166,191 @@ theorem formatPaddedLines_width (col : Nat) (text : Str) (leftPad maxW : Int) (h
     simpa using this
 
 end NitroVerif.Usage
+
+/-! ### lines that do hold a never-fitting word
+
+`fpCores` is a second ghost: for every line its length and its *core* — the length it had when the
+first never-fitting word was put on it (the whole length if there is none).  Behind such a word
+the remaining-space counter is negative, so only further never-fitting words can follow on that
+line; `fpCores_width` bounds every core. -/
+namespace NitroVerif.Usage
+open NitroVerif.Str
+
+def fpCores (leftPad maxW : Int) : Int → Option Int → List Str → Nat → Option Nat → List (Nat × Nat)
+  | _, _, [], col, core => [(col, core.getD col)]
+  | space, pending, word :: rest, col, core =>
+    let w := untab word
+    let n : Int := w.length + 1
+    let never : Bool := (0 ≤ maxW - leftPad) && decide (n > maxW - leftPad)
+    let col' := col + (blanks (pending.getD 1)).length + w.length
+    if never then fpCores leftPad maxW (space - n) none rest col' (some (core.getD col))
+    else if decide (n ≤ space) then
+      -- a fitting word goes on the current line: everything so far counts (if the line already held a
+      -- never-fitting word this would push the core up — `fpCores_width` shows it cannot happen)
+      fpCores leftPad maxW (space - n) none rest col' (core.map fun _ => col')
+    else
+      (col, core.getD col) :: fpCores leftPad maxW (maxW - leftPad - n) none rest ((blanks leftPad).length + w.length) none
+
+theorem fpCores_lens (leftPad maxW : Int) (words : List Str) (hw : ∀ w ∈ words, '\n' ∉ w)
+    (space : Int) (pending : Option Int) (col : Nat) (core : Option Nat) :
+    (fpCores leftPad maxW space pending words col core).map (·.1) =
+      lineLens col (fpGo leftPad maxW space pending words) := by
+  induction words generalizing space pending col core with
+  | nil => simp [fpCores, fpGo, lineLens]
+  | cons word rest ih =>
+    have hnl := hw word (by simp)
+    have hrest : ∀ w ∈ rest, '\n' ∉ w := fun w hm => hw w (by simp [hm])
+    simp only [fpCores, fpGo]
+    by_cases hnever : ((0 ≤ maxW - leftPad) && decide (((untab word).length : Int) + 1 > maxW - leftPad)) = true
+    · simp only [hnever, if_true, Bool.true_or]
+      rw [ih hrest, List.append_assoc, lineLens_append _ _ _ (blanks_noNl _),
+        lineLens_append _ _ _ (untab_noNl _ hnl)]
+    · have hn : ((0 ≤ maxW - leftPad) && decide (((untab word).length : Int) + 1 > maxW - leftPad)) = false := by
+        simpa using hnever
+      simp only [hn, Bool.false_eq_true, if_false, Bool.false_or]
+      split
+      · rw [ih hrest, List.append_assoc, lineLens_append _ _ _ (blanks_noNl _),
+          lineLens_append _ _ _ (untab_noNl _ hnl)]
+      · simp only [List.map_cons, List.cons_append, List.append_assoc, lineLens, ↓reduceIte]
+        rw [ih hrest, lineLens_append _ _ _ (blanks_noNl _), lineLens_append _ _ _ (untab_noNl _ hnl)]
+        simp
+
+/-- **The core of every line keeps within the bound** `B ≥ maxW` (the bound of the continued line
+is `max col maxW`).  `core = some c`: the current line already holds a never-fitting word, its core
+is `c`, and the counter is negative. -/
+theorem fpCores_width (leftPad maxW B : Int) (h0 : 0 ≤ leftPad) (h1 : leftPad < maxW) (hB : maxW ≤ B)
+    (words : List Str) (col : Nat) (space : Int) (pending : Option Int) (core : Option Nat)
+    (hsp : space ≤ maxW - leftPad)
+    (hnone : core = none → (col : Int) ≤ B ∧ 0 ≤ space ∧
+      (space ≤ 0 ∨ (col : Int) + ((blanks (pending.getD 1)).length : Int) - 1 ≤ maxW - space))
+    (hsome : ∀ c, core = some c → space < 0 ∧ (c : Int) ≤ B) :
+    ∀ p ∈ fpCores leftPad maxW space pending words col core, (p.2 : Int) ≤ B := by
+  induction words generalizing col space pending core with
+  | nil =>
+    intro p hp
+    simp only [fpCores, List.mem_singleton] at hp
+    subst hp
+    cases core with
+    | none => simpa using (hnone rfl).1
+    | some c => simpa using (hsome c rfl).2
+  | cons word rest ih =>
+    simp only [fpCores]
+    rw [untab_length]
+    by_cases hnever : ((0 ≤ maxW - leftPad) && decide ((word.length : Int) + 1 > maxW - leftPad)) = true
+    · simp only [hnever, if_true]
+      have hgt : (word.length : Int) + 1 > maxW - leftPad := by
+        simp only [Bool.and_eq_true, decide_eq_true_eq] at hnever; exact hnever.2
+      intro p hp
+      refine ih _ (space - (↑word.length + 1)) none (some (core.getD col)) (by omega) (by simp) ?_ p hp
+      intro c hc
+      simp only [Option.some.injEq] at hc
+      subst hc
+      refine ⟨by omega, ?_⟩
+      cases core with
+      | none => simpa using (hnone rfl).1
+      | some c => simpa using (hsome c rfl).2
+    · have hn : ((0 ≤ maxW - leftPad) && decide ((word.length : Int) + 1 > maxW - leftPad)) = false := by
+        simpa using hnever
+      have hfitw : (word.length : Int) + 1 ≤ maxW - leftPad := by
+        simp only [Bool.and_eq_false_iff, decide_eq_false_iff_not] at hn
+        rcases hn with h | h <;> omega
+      simp only [hn, Bool.false_eq_true, if_false]
+      by_cases hfits : (word.length : Int) + 1 ≤ space
+      · simp only [hfits, decide_true, if_true]
+        -- the line cannot already hold a never-fitting word: the counter would be negative
+        cases core with
+        | some c => exact absurd (hsome c rfl).1 (by omega)
+        | none =>
+          obtain ⟨_, hs, hi⟩ := hnone rfl
+          have hi' := hi.resolve_left (by omega)
+          intro p hp
+          simp only [Option.map_none] at hp
+          generalize (blanks (pending.getD 1)).length = bl at *
+          refine ih (col + bl + word.length) (space - (↑word.length + 1)) none none (by omega) ?_ (by simp) p hp
+          intro _
+          refine ⟨by push_cast; omega, by omega, Or.inr ?_⟩
+          simp only [Option.getD_none, blanks_one_length]; push_cast; omega
+      · simp only [hfits, decide_false, Bool.false_eq_true, if_false]
+        intro p hp
+        rcases List.mem_cons.mp hp with he | hp
+        · subst he
+          cases core with
+          | none => simpa using (hnone rfl).1
+          | some c => simpa using (hsome c rfl).2
+        · have hbp := blanks_pad_length leftPad h0
+          generalize (blanks leftPad).length = bp at *
+          refine ih (bp + word.length) (maxW - leftPad - (↑word.length + 1)) none none (by omega) ?_ (by simp) p hp
+          intro _
+          refine ⟨by push_cast; split at hbp <;> omega, by omega, Or.inr ?_⟩
+          simp only [Option.getD_none, blanks_one_length]; push_cast; split at hbp <;> omega
+
+/-- the core is a prefix length of its line -/
+theorem fpCores_core_le (leftPad maxW : Int) (words : List Str) (space : Int) (pending : Option Int)
+    (col : Nat) (core : Option Nat) (hc : ∀ c, core = some c → c ≤ col) :
+    ∀ p ∈ fpCores leftPad maxW space pending words col core, p.2 ≤ p.1 := by
+  induction words generalizing space pending col core with
+  | nil =>
+    intro p hp
+    simp only [fpCores, List.mem_singleton] at hp
+    subst hp
+    cases core with
+    | none => simp
+    | some c => simpa using hc c rfl
+  | cons word rest ih =>
+    simp only [fpCores]
+    intro p hp
+    split at hp
+    · refine ih _ _ _ _ ?_ p hp
+      intro c h
+      simp only [Option.some.injEq] at h
+      subst h
+      cases core with
+      | none => simp; omega
+      | some c => have := hc c rfl; simp; omega
+    · split at hp
+      · refine ih _ _ _ _ ?_ p hp
+        intro c h
+        cases core with
+        | none => simp at h
+        | some c0 => simp at h; omega
+      · rcases List.mem_cons.mp hp with he | hp
+        · subst he
+          cases core with
+          | none => simp
+          | some c => simpa using hc c rfl
+        · exact ih _ _ _ _ (by simp) p hp
+
+/-- the second ghost for a whole call of `format_padded` -/
+def formatPaddedCores (col : Nat) (text : Str) (leftPad maxW : Int) : List (Nat × Nat) :=
+  let words := splitGo [' '] (by decide) text
+  if (col : Int) ≤ leftPad then fpCores leftPad maxW (maxW - leftPad) (some (leftPad - col)) words col none
+  else fpCores leftPad maxW 0 none words col none
+
+theorem formatPaddedCores_lens (col : Nat) (text : Str) (leftPad maxW : Int) (hnl : '\n' ∉ text) :
+    (formatPaddedCores col text leftPad maxW).map (·.1) = lineLens col (formatPadded col text leftPad maxW) := by
+  have hw : ∀ w ∈ splitGo [' '] (by decide) text, '\n' ∉ w :=
+    fun w hm hc => hnl (mem_of_mem_splitGo _ _ _ _ _ hm hc)
+  unfold formatPaddedCores formatPadded
+  simp only
+  split <;> exact fpCores_lens _ _ _ hw _ _ _ _
+
+theorem formatPaddedCores_width (col : Nat) (text : Str) (leftPad maxW : Int) (h0 : 0 ≤ leftPad)
+    (h1 : leftPad < maxW) :
+    ∀ p ∈ formatPaddedCores col text leftPad maxW, (p.2 : Int) ≤ max (col : Int) maxW := by
+  unfold formatPaddedCores
+  simp only
+  intro p hp
+  by_cases hc : (col : Int) ≤ leftPad
+  · simp only [hc, if_true] at hp
+    refine fpCores_width leftPad maxW (max (col : Int) maxW) h0 h1 (by omega) _ col (maxW - leftPad)
+      (some (leftPad - col)) none (by omega) ?_ (by simp) p hp
+    intro _
+    refine ⟨by omega, by omega, Or.inr ?_⟩
+    simp only [Option.getD_some]; rw [blanks_length]; split <;> (push_cast; omega)
+  · simp only [hc, if_false] at hp
+    refine fpCores_width leftPad maxW (max (col : Int) maxW) h0 h1 (by omega) _ col 0 none none (by omega) ?_
+      (by simp) p hp
+    intro _
+    exact ⟨by omega, by omega, Or.inl (by omega)⟩
+
+end NitroVerif.Usage
